@@ -18,7 +18,7 @@ with / passes without the patch; suite passes) and run through the checks with
 `lib/seedtest.sh` (which restores the evidence file afterwards, so evidence
 always describes the unchanged tree):
 
-%d seeded changes in eight rounds (C20 is not applicable). Every one is caught by the quick tier of a registered check
+%d seeded changes in nine rounds (C20 is not applicable). Every one is caught by the quick tier of a registered check
 (its property's own, except where the table names another) on the current tree. %d of them were missed or mishandled
 when first run. Most misses had one cause: the case space lacked the feature the change needs (a builder method, a
 clause, a value shape, a call order). In a few the check compared less than the property states — C09 compared the
@@ -30,12 +30,13 @@ error's message without reading it (C10-11); C14 ignored the IF NOT EXISTS guard
 ever loosened. The right-hand column records what was added. That loop (independent change → miss → grow the
 specification and its generators → caught) is how most of §12.8 came about.
 
-Three changes produced by the sub-agents were not kept, because the behaviour they change is outside the property
+Four changes produced by the sub-agents were not kept, because the behaviour they change is outside the property
 as stated: C05-8 (a CASE without any WHEN arm — the unchanged tree renders `(CASE ELSE x END)`, which no engine
 parses, so there is no well-formed rendering to preserve), C10-6 (an empty row on a column-less INSERT through
 `values_panic` — the behaviour it changes is the one already listed as an open C10 finding) and C11-6
 (`inject_parameters` on a hand-written text that repeats `$1` — the property quantifies over the (sql, values)
-pairs `build()` produces, which never repeat a number).
+pairs `build()` produces, which never repeat a number) and C05-14 (an `Expr::cust` fragment such as `(a = 1) OR (b = 2)`
+spliced in without parentheses — opaque caller text is not among the constructors C05 quantifies over).
 
 ''' % (n, missed)
 s = s[:a] + txt + tbl + "\n" + s[b:]
